@@ -50,6 +50,17 @@ CLAIMS.update({
          "3.5, 3.6, 4 (C24)"),
 })
 
+CLAIMS.update({
+ "C09": ("SSA guard/dominance and key-coverage rules over lex.generator.generate and lex.Tables.Scan (cell-class codec)",
+         "Decides that the accept choice prefers strictly higher precedence and reports ties, that checkpoints are keyed by (target state, accepted action), and that writer and reader of the DFA cell classes agree, including the end-of-input transition and the fallback to the last accepted position. Necessary conditions of longest match with priority; the automaton construction is not decided.",
+         "Cell classes as documented in lex/lex.go (state >= 0, checkpoint in (actionStart,-1], accept <= actionStart).",
+         "3.1, 3.2, 4 (C09)"),
+ "C10": ("interval abstract evaluation of digit helpers; loop trip-count/guard analysis; dominance guards; decision-table extraction",
+         "Decides that hexval/octval have exactly the documented value ranges, that no escape accumulator can wrap, that fold tables are used only when folding, that inverted ranges cannot be inserted, that \\P{^X} toggles, that the fold orbit is fully visited and that byte-mode non-ASCII runes are not folded. Necessary conditions; the general denotation of patterns is not decided.",
+         "unicode tables and SimpleFold are trusted.",
+         "3.5, 3.6, 4 (C10)"),
+})
+
 NA = {
 }
 
